@@ -132,6 +132,143 @@ def normalise(edges, inits):
     return edges, [st(s) for s in inits]
 
 
+def tla_seq(text):
+    return "<<" + ", ".join('"%s"' % c for c in text) + ">>"
+
+
+SETTINGS_S = [{"m": "inherit"}, {"m": "auto"}, {"m": "off"}, {"m": "name", "n": ["P"]}]
+SETTINGS_F = [{"m": "inherit"}, {"m": "auto"}, {"m": "off"}, {"m": "name", "n": ["N"]}]
+ALL_NAMES = ["A", "P_A", "N", "SUB_B", "P_SUB_B", "B", "P_B", "SUB_DEEP_C", "P_SUB_DEEP_C", "DEEP_C", "P_DEEP_C", "C"]
+
+
+def schema_from_settings(g):
+    """The descriptor SchemaE(s1, f1, s2, f2, f3) of EnvMachine.tla, as JSON."""
+    common_ = {"required": False, "sensitive": False, "fname": "", "fval": "none"}
+    stro = {"minlen": -1, "maxlen": -1, "regex": "none", "choices": [], "tcase": "none", "stripm": "none", "stripcs": []}
+    a = dict(common_, kind="int", hasmin=True, min=0, hasmax=True, max=99, default={"t": "int", "i": 5}, env=g[1])
+    b = dict(common_, **stro)
+    b.update(kind="string", default={"t": "str", "s": ["d"]}, maxlen=4, env=g[3])
+    c = dict(common_, kind="bool", default={"t": "bool", "b": False}, env=g[4])
+    sf = {"kind": "schema", "dynamic": False, "ctype": False, "flagkey": "", "validators": [], "fname": ""}
+    deep = dict(sf, senv={"m": "inherit"}, fields=[["c", c]])
+    sub_ = dict(sf, senv=g[2], fields=[["b", b], ["deep", deep]])
+    return dict(sf, senv=g[0], fields=[["a", a], ["sub", sub_]])
+
+
+def trace_driver(cinco, seed, n_envs, per_env, length):
+    import random
+
+    rng = random.Random(seed)
+    batches = []
+    for _ in range(n_envs):
+        environ = {}
+        for name in ALL_NAMES:
+            r = rng.random()
+            if r < 0.35:
+                continue
+            environ[name] = rng.choice(["", "7", "12", "100", "x", "yes", "off", "1", "0", "abcd", "toolong", " 5 ", "true", "-1", "9 9"])
+        traces = []
+        for _ in range(per_env):
+            g = [rng.choice(SETTINGS_S), rng.choice(SETTINGS_F), rng.choice(SETTINGS_S), rng.choice(SETTINGS_F), rng.choice(SETTINGS_F)]
+            w = World(cinco, {"sch": schema_from_settings(g)}, environ)
+            events = []
+            try:
+                for i in range(length):
+                    r = rng.random()
+                    if i == 0 or (w.cfg is None) or r < 0.1:
+                        ev = {"op": "Build"}
+                    elif r < 0.4:
+                        kv = []
+                        if rng.random() < 0.6:
+                            kv.append([{"t": "str", "s": ["a"]}, rng.choice([{"t": "int", "i": rng.randint(0, 99)}, {"t": "str", "s": list(str(rng.randint(0, 120)))}])])
+                        if rng.random() < 0.7:
+                            sub_kv = []
+                            if rng.random() < 0.7:
+                                sub_kv.append([{"t": "str", "s": ["b"]}, {"t": "str", "s": list(rng.choice(["f", "file", "ab", "toolong"]))}])
+                            if rng.random() < 0.5:
+                                sub_kv.append([{"t": "str", "s": list("deep")}, {"t": "dict", "kv": [[{"t": "str", "s": ["c"]}, rng.choice([{"t": "bool", "b": True}, {"t": "str", "s": list("no")}])]]}])
+                            kv.append([{"t": "str", "s": list("sub")}, {"t": "dict", "kv": sub_kv}])
+                        ev = {"op": "Load", "tree": {"t": "dict", "kv": kv}}
+                    elif r < 0.8:
+                        p, k = rng.choice([([], "a"), (["sub"], "b"), (["sub", "deep"], "c")])
+                        v = {"a": lambda: rng.choice([{"t": "int", "i": rng.randint(-2, 101)}, {"t": "str", "s": list("33")}]),
+                             "b": lambda: {"t": "str", "s": list(rng.choice(["set", "x", "toolong", ""]))},
+                             "c": lambda: rng.choice([{"t": "bool", "b": True}, {"t": "str", "s": list("m")}, {"t": "int", "i": 0}])}[k]()
+                        ev = {"op": "Assign", "p": p, "k": k, "v": v}
+                    else:
+                        p, k = rng.choice([([], "a"), (["sub"], "b"), (["sub", "deep"], "c")])
+                        ev = {"op": "Reset", "p": p, "k": k}
+                    if w.cfg is None and ev["op"] != "Build":
+                        continue
+                    res = w.step(ev)
+                    obs = w.observe()
+                    rec = dict(ev)
+                    rec["out"] = res["out"]
+                    rec["errpath"] = [x for x in res["errpath"].split(".")] if res["errpath"] else []
+                    rec["cfg"] = obs["cfg"]
+                    rec["names"] = obs["names"]
+                    events.append(rec)
+            finally:
+                w.close()
+            traces.append({"settings": g, "events": events})
+        batches.append((environ, traces))
+    return batches
+
+
+def validate_batches(batches):
+    from .. import tracecheck
+
+    verdicts_all = []
+    tstates = 0
+    for i, (environ, traces) in enumerate(batches):
+        d = tlc.scratch("cinco-c14t-")
+        for name in os.listdir(tlc.SPEC_DIR):
+            if name.endswith(".tla"):
+                os.symlink(os.path.join(tlc.SPEC_DIR, name), os.path.join(d, name))
+        if environ:
+            dom = ", ".join(tla_seq(k) for k in environ)
+            cases = " [] ".join("n = %s -> %s" % (tla_seq(k), tla_seq(v)) for k, v in environ.items())
+            envdef = "[n \\in {%s} |-> CASE %s]" % (dom, cases)
+        else:
+            envdef = "[n \\in {} |-> <<>>]"
+        with open(os.path.join(d, "TraceEnvRun.tla"), "w") as fp:
+            fp.write("---- MODULE TraceEnvRun ----\nEXTENDS Trace_Env\nTrEnviron == %s\n====\n" % envdef)
+        cfg = os.path.join(d, "TraceEnvRun.cfg")
+        with open(cfg, "w") as fp:
+            fp.write("CONSTANTS\n  Environ <- TrEnviron\n  KeyNames <- TrKeyNames\n  KeyChars <- TrKeyChars\n  Big = TRUE\n  MaxDepth = 999\n"
+                     "INIT TraceInit\nNEXT TraceNext\nVIEW TraceView\nACTION_CONSTRAINT Report\nCONSTRAINT ReportState\n")
+        verdicts, st = validate_in(d, traces)
+        for v in verdicts:
+            v.environ = environ
+        verdicts_all += verdicts
+        tstates += st["states"]
+    return verdicts_all, tstates
+
+
+def validate_in(spec_dir, traces):
+    """tracecheck.validate with another spec directory."""
+    from .. import tracecheck
+    import json as _json
+
+    path = os.path.join(spec_dir, "traces.json")
+    with open(path, "w") as fp:
+        _json.dump(tracecheck._strip_none(traces), fp)
+    res = tlc.run("TraceEnvRun.tla", "TraceEnvRun.cfg", workers=1, env={"TRACE_FILE": path}, spec_dir=spec_dir)
+    vs = [tracecheck.TraceVerdict(i, t) for i, t in enumerate(traces)]
+    for rec in res.printed.get("TRACE", []):
+        v = vs[rec["t"] - 1]
+        if v.bad_obs or v.bad_inv:
+            continue
+        if rec.get("bo") or rec.get("bi"):
+            v.bad_obs = list(rec.get("bo") or []) or None
+            v.bad_inv = list(rec.get("bi") or []) or None
+            v.model = rec.get("m")
+            v.at = rec["l"]
+        else:
+            v.consumed = max(v.consumed, rec["l"])
+    return vs, {"states": res.distinct}
+
+
 def run(tier, seed):
     cinco = common.import_repo()
     out = common.Outcome("C14")
@@ -177,7 +314,25 @@ def run(tier, seed):
                 "spec->code (environment %s): %s differs from the specification: %s" % (environ, {k: v for k, v in m.ev.items() if k in ("op", "p", "k")}, m.detail[:300]),
                 dict(m.to_json(), environment=environ),
             )
+    # code -> spec: random settings of the full family under random environments
+    n_envs, per_env, length = (4, 40, 8) if tier == "quick" else (12, 200, 12)
+    batches = trace_driver(cinco, seed, n_envs, per_env, length)
+    for environ, _ in batches:
+        ENV_NAMES.update(environ)
+    verdicts, tstates = validate_batches(batches)
+    for v in [v for v in verdicts if not v.accepted][:15]:
+        k = (v.at or v.consumed + 1) - 1
+        e = v.trace["events"][k] if k < len(v.trace["events"]) else {}
+        out.violation(
+            "trace:%s:%s" % (e.get("op"), ",".join(v.bad_inv or v.bad_obs or ["not-enabled"])),
+            "code->spec (environment %s, settings %s): %s" % (v.environ, v.trace["settings"], v.describe()[:300]),
+            dict(v.to_json() if "init" in v.trace else {"why": v.describe(), "settings": v.trace["settings"], "events": v.trace["events"][: k + 1], "spec_expected": v.model}, environment=v.environ),
+        )
+    cases += len(verdicts)
     out.coverage = {
+        "code_to_spec_traces": len(verdicts),
+        "code_to_spec_events": sum(len(t["events"]) for _, ts in batches for t in ts),
+        "code_to_spec_tlc_states": tstates,
         "states": states,
         "transitions": transitions,
         "exhaustive": True,
